@@ -5,7 +5,9 @@ C06 — the protected stream is delivered exactly, in order, within record size 
 Property theorems only (helpers are in `Gotlcp.Lemmas.C06Tx` / `C06Rx`).  The models are
 `Gotlcp.Model.RecordTx` (sender: `maxPayloadSizeForWrite`, the split loop of
 `writeRecordLocked`, ciphertext lengths of `encrypt`) and `Gotlcp.Model.RecordRx` (receiver:
-`readFromUntil`/`atLeastReader`/`rawInput`, `readRecordOrCCS`, `Conn.Read`), instantiated
+`readFromUntil`/`atLeastReader`/`rawInput`, `readRecordOrCCS`, `Conn.Read`; and
+`Model.RecordRxHandshake`: the same receive path while the handshake is still running,
+`readFinished`, and the hand-over to `Conn.Read` at the end of `handshake()`), instantiated
 with the regenerated source facts (`factsTx`, `factsRx`).  Statements quantify over every
 write size and content, every sender state (`bytesSent`, `packetsSent`), dynamic record
 sizing on or off, every protection mode, every chunking of the wire and every sequence of
@@ -14,6 +16,7 @@ read-buffer sizes.  Record protection itself is a parameter (`dec`), see C04.
 import Gotlcp.Lemmas.C06Tx
 import Gotlcp.Lemmas.C06Rx
 import Gotlcp.Lemmas.C06Compose
+import Gotlcp.Lemmas.C06Handshake
 import Gotlcp.Model.RecordTxFacts
 import Gotlcp.Model.RecordRxFacts
 import Gotlcp.Generated.Facts
@@ -28,6 +31,7 @@ open Gotlcp.Model.RecordRx
 open Gotlcp.Lemmas.C06Tx
 open Gotlcp.Lemmas.C06Rx
 open Gotlcp.Lemmas.C06Compose
+open Gotlcp.Lemmas.C06Hs
 open Gotlcp
 
 /-- the facts of the source the other theorems rely on -/
@@ -48,6 +52,12 @@ theorem C06_facts :
     Facts.tlcp.maxUselessRecords = 16 ∧ Facts.tlcp.VersionTLCP = 257 ∧
     Facts.tlcp.recordTypeAlert = 21 ∧ Facts.tlcp.recordTypeApplicationData = 23 ∧
     Facts.tlcp.recordTypeChangeCipherSpec = 20 ∧ Facts.tlcp.alertCloseNotify = 0 ∧
+    Facts.tlcp.recordTypeHandshake = 22 ∧ Facts.tlcp.typeFinished = 20 ∧
+    Facts.tlcp.maxHandshake = 65536 ∧ Facts.tlcp.finishedVerifyLength = 12 ∧
+    -- frame condition of the handshake/application boundary: only the record layer mentions
+    -- `c.rawInput` (what `readFromUntil` buffered ahead is not the handshake's to discard)
+    Facts.tlcp.rxRawInputUsers =
+      ["Conn.Read", "Conn.newRecordHeaderError", "Conn.readFromUntil", "Conn.readRecordOrCCS"] ∧
     Facts.missing = [] := by decide
 
 /-! ### sender -/
@@ -402,6 +412,173 @@ theorem C06_stream_identity (dynDisabled : Bool) (k : Kind) (C : Codec k) (s : T
     rw [← hflat] at hlen ⊢
     exact C06_read_eventually C.dec appByte alertByte closeNotifyByte hta htl hcn chunks recs closed hh bufs hb hlen
 
+/-! ### across the end of the handshake -/
+
+theorem factsRx_hsok : HsOK factsRx :=
+  ⟨factsRx_ok, by decide, by decide, by decide, by decide, by decide, by decide, by decide⟩
+
+def ccsByte : UInt8 := UInt8.ofNat Facts.tlcp.recordTypeChangeCipherSpec
+def hsByte : UInt8 := UInt8.ofNat Facts.tlcp.recordTypeHandshake
+
+/-- **Nothing is lost at the end of the handshake.**  The peer sends its last handshake flight
+(ChangeCipherSpec, Finished) and then application data, perhaps a close-notify (`HonestFlight`);
+the transport delivers these bytes in any chunks — the Finished and the first application
+records in one read, a record header split across reads, one byte at a time — and some of them
+may already sit in `rawInput` when the last flight is awaited (`io` is arbitrary: only
+`io.all`, buffered bytes followed by the transport's chunks, is constrained).  Then
+`readFinished` succeeds, and for every sequence of non-empty read buffers the `Read`s that
+follow the handshake hand out a prefix of the payloads, never an error other than
+end-of-stream, end-of-stream only after the last byte, and everything after enough reads. -/
+theorem C06_boundary_delivered (dec : Dec) (okFin : Bytes → Bool) (ta tl cn : UInt8)
+    (hta : ta.toNat = Facts.tlcp.recordTypeApplicationData) (htl : tl.toNat = Facts.tlcp.recordTypeAlert)
+    (hcn : cn.toNat = Facts.tlcp.alertCloseNotify)
+    (io : Raw) (ps : List Bytes) (closed : Bool)
+    (hf : HonestFlight factsRx factsHs dec okFin ccsByte hsByte ta tl cn io.all ps closed)
+    (bufs : List Nat) (hb : ∀ n ∈ bufs, 1 ≤ n) :
+    let r := lastFlightThenReads factsRx factsHs dec okFin { io := io } bufs
+    r.1 = none ∧
+    (∃ rest, delivered r.2 ++ rest = ps.flatten) ∧
+    (∀ o ∈ r.2, (o.2 = none ∧ 0 < o.1.length) ∨ o.2 = some .eof) ∧
+    ((∃ o ∈ r.2, o.2 = some .eof) → delivered r.2 = ps.flatten) := by
+  intro r
+  obtain ⟨s2, h1, hinv⟩ := lastFlight_honest factsRx factsHs dec okFin factsRx_hsok ccsByte hsByte ta tl cn
+    (by decide) (by decide) ({ io := io } : HsRx) rfl rfl rfl ps closed hf
+  have hr : r = (none, (reads factsRx dec (finishHandshake s2) bufs).1) := by
+    show lastFlightThenReads factsRx factsHs dec okFin { io := io } bufs = _
+    unfold lastFlightThenReads
+    rw [h1]
+  obtain ⟨i1, i2, i3⟩ := reads_honest factsRx dec factsRx_ok ta tl cn hta htl hcn ps.flatten bufs _ [] hb hinv
+  rw [hr]
+  refine ⟨rfl, ?_, i2, ?_⟩
+  · simp only [List.nil_append] at i1
+    rcases i1 with ⟨_, ps', c, _, hD⟩ | ⟨_, _, hD⟩
+    · exact ⟨_, by rw [← hD, List.append_assoc]⟩
+    · exact ⟨[], by simpa using hD⟩
+  · intro heof
+    simpa using i3 heof
+
+/-- the bytes an honest sender puts on the transport from its ChangeCipherSpec on: the
+ChangeCipherSpec record (not protected), the Finished message `fin` protected under the new
+keys at sequence number 0, the application records from sequence number 1, the close-notify -/
+def flightBytes {k : Kind} (C : Codec k) (fin : Bytes) (recs : List Bytes) (closed : Bool) : Bytes :=
+  frameBytes factsRx ccsByte [1] ++ (frameBytes factsRx hsByte (C.enc 0 hsByte fin) ++
+    (wire C 1 recs ++ ending C (1 + recs.length) closed))
+
+/-- a well-formed Finished message: header `[typeFinished, 0, 0, |verify data|]` and a body of
+that length (12 bytes in TLCP, pinned by `C06_facts`; the lemma needs only that it fits) -/
+def finishedMsg (verify : Bytes) : Bytes :=
+  [UInt8.ofNat Facts.tlcp.typeFinished, 0, 0, UInt8.ofNat verify.length] ++ verify
+
+theorem flight_honest {k : Kind} (C : Codec k) (okFin : Bytes → Bool) (verify : Bytes)
+    (hv : verify.length = Facts.tlcp.finishedVerifyLength) (hok : okFin (finishedMsg verify) = true)
+    (recs : List Bytes) (closed : Bool)
+    (hall : ∀ p ∈ recs, 0 < p.length ∧ p.length ≤ Facts.tlcp.maxPlaintext) :
+    HonestFlight factsRx factsHs C.dec okFin ccsByte hsByte appByte alertByte closeNotifyByte
+      (flightBytes C (finishedMsg verify) recs closed) recs closed := by
+  have hh : factsRx.recordHeaderLen = 5 := by decide
+  have hver : factsRx.version < 65536 := by decide
+  have hm : factsRx.maxCiphertext < 65536 := by decide
+  have hmc : factsRx.maxCiphertext = Facts.tlcp.maxCiphertext := rfl
+  have hvl : Facts.tlcp.finishedVerifyLength = 12 := by decide
+  rw [hvl] at hv
+  have hfl : (finishedMsg verify).length = 16 := by simp [finishedMsg, hv]
+  have hg1 : (finishedMsg verify).getD 1 0 = 0 := rfl
+  have hg2 : (finishedMsg verify).getD 2 0 = 0 := rfl
+  have hg3 : (finishedMsg verify).getD 3 0 = 12 := by simp [finishedMsg, hv]
+  have hbe : be24 ((finishedMsg verify).getD 1 0) ((finishedMsg verify).getD 2 0) ((finishedMsg verify).getD 3 0) = 12 := by
+    rw [hg1, hg2, hg3]; decide
+  unfold HonestFlight flightBytes
+  refine ⟨frameBytes factsRx hsByte (C.enc 0 hsByte (finishedMsg verify)) ++
+      (wire C 1 recs ++ ending C (1 + recs.length) closed), C.enc 0 hsByte (finishedMsg verify),
+    wire C 1 recs ++ ending C (1 + recs.length) closed, finishedMsg verify,
+    ?_, ?_, C.roundtrip _ _ _, ?_, ?_, ?_, ?_, hok, ?_⟩
+  · exact parseOne_frame factsRx hh hver hm ccsByte [1] _ (by decide)
+  · exact parseOne_frame factsRx hh hver hm hsByte _ _
+      (by rw [C.len, hmc]; exact C06_cipher_le k _ (by rw [hfl]; decide))
+  · rw [hbe, hfl]
+  · rw [hbe]; decide
+  · rw [hfl]; decide
+  · simp only [finishedMsg, List.cons_append, List.getD_cons_zero]; decide
+  · exact wire_honest C closed recs 1 hall
+
+/-- **Stream identity across the end of the handshake (sender ∘ transport ∘ receiver).**  As
+`C06_stream_identity`, for a connection whose peer sends the last handshake flight and then
+writes at once (the client of a resumed session, the server of a full handshake): the
+sender's ChangeCipherSpec, Finished and application records (the `i`-th under sequence number
+`i`, the Finished having taken 0) reach the receiver's transport as one byte stream cut into
+arbitrary chunks, with any part of it already buffered.  The receiver's handshake completes,
+and its `Read`s — any non-empty buffers — return a prefix of the concatenation of the writes,
+never an error other than end-of-stream, end-of-stream only after everything, and everything
+once more reads were made than bytes were written. -/
+theorem C06_stream_identity_across_handshake (dynDisabled : Bool) (k : Kind) (C : Codec k) (s : TxState)
+    (okFin : Bytes → Bool) (verify : Bytes) (hv : verify.length = Facts.tlcp.finishedVerifyLength)
+    (hok : okFin (finishedMsg verify) = true)
+    (ws : List Bytes) (closed : Bool) (io : Raw) (bufs : List Nat) :
+    ∃ recs s', writes factsTx dynDisabled k s ws = some (recs, ws.map (·.length), s') ∧
+      (io.all = flightBytes C (finishedMsg verify) recs closed → (∀ n ∈ bufs, 1 ≤ n) →
+        let r := lastFlightThenReads factsRx factsHs C.dec okFin { io := io } bufs
+        r.1 = none ∧
+        (∃ rest, delivered r.2 ++ rest = ws.flatten) ∧
+        (∀ o ∈ r.2, (o.2 = none ∧ 0 < o.1.length) ∨ o.2 = some .eof) ∧
+        ((∃ o ∈ r.2, o.2 = some .eof) → delivered r.2 = ws.flatten) ∧
+        (ws.flatten.length < bufs.length → delivered r.2 = ws.flatten)) := by
+  obtain ⟨recs, s', hw, hflat, hall⟩ := C06_writes_concat dynDisabled k ws s
+  refine ⟨recs, s', hw, ?_⟩
+  intro hio hb r
+  have hta : appByte.toNat = Facts.tlcp.recordTypeApplicationData := by decide
+  have htl : alertByte.toNat = Facts.tlcp.recordTypeAlert := by decide
+  have hcn : closeNotifyByte.toNat = Facts.tlcp.alertCloseNotify := by decide
+  have hf := flight_honest C okFin verify hv hok recs closed hall
+  rw [← hio] at hf
+  obtain ⟨h0, h1, h2, h3⟩ := C06_boundary_delivered C.dec okFin appByte alertByte closeNotifyByte hta htl hcn
+    io recs closed hf bufs hb
+  rw [hflat] at h1 h3
+  refine ⟨h0, h1, h2, h3, ?_⟩
+  intro hlen
+  by_cases heof : ∃ o ∈ r.2, o.2 = some .eof
+  · exact h3 heof
+  · exfalso
+    -- no end-of-stream: every read returned at least one byte, more than were ever written
+    obtain ⟨rest, hpre⟩ := h1
+    have hcount : ∀ (outs : List (Bytes × Option RxErr)),
+        (∀ o ∈ outs, (o.2 = none ∧ 0 < o.1.length) ∨ o.2 = some .eof) →
+        (¬ ∃ o ∈ outs, o.2 = some .eof) → outs.length ≤ (delivered outs).length := by
+      intro outs
+      induction outs with
+      | nil => intro _ _; simp [delivered]
+      | cons o os ih =>
+        intro h1 h2
+        have ho := h1 o List.mem_cons_self
+        have hne : ¬ o.2 = some .eof := fun h => h2 ⟨o, List.mem_cons_self, h⟩
+        have hpos : 0 < o.1.length := by
+          rcases ho with ⟨_, h⟩ | h
+          · exact h
+          · exact absurd h hne
+        have := ih (fun x hx => h1 x (List.mem_cons_of_mem _ hx))
+          (fun ⟨x, hx, he⟩ => h2 ⟨x, List.mem_cons_of_mem _ hx, he⟩)
+        simp only [delivered, List.map_cons, List.flatten_cons, List.length_append, List.length_cons] at this ⊢
+        omega
+    have hl : ∀ (bufs : List Nat) (s : Rx), (reads factsRx C.dec s bufs).1.length = bufs.length := by
+      intro bufs
+      induction bufs with
+      | nil => intro s; rfl
+      | cons n ns ih => intro s; simp [reads, ih]
+    have hrl : r.2.length = bufs.length := by
+      show (lastFlightThenReads factsRx factsHs C.dec okFin { io := io } bufs).2.length = _
+      have h0' : (lastFlightThenReads factsRx factsHs C.dec okFin { io := io } bufs).1 = none := h0
+      unfold lastFlightThenReads at h0' ⊢
+      cases hlf : readLastFlight factsRx factsHs C.dec okFin { io := io } with
+      | mk e s1 =>
+        rw [hlf] at h0'
+        cases e with
+        | some e => simp at h0'
+        | none => simp only []; exact hl bufs _
+    have hc := hcount _ h2 heof
+    rw [hrl] at hc
+    have hp := congrArg List.length hpre
+    simp only [List.length_append] at hp
+    omega
+
 /-- the laws of `Codec` are satisfiable in every mode: placeholder protections with exactly the
 lengths of the real ones (these are the ones the oracle runs) -/
 def codecNone : Codec .none where
@@ -465,5 +642,33 @@ example :
     chunks.flatten = w ∧
     (reads factsRx codecAead.dec { io := ⟨[], chunks⟩ } [2, 1, 5, 5]).1
       = [([1, 2], none), ([3], none), ([4, 5], some .eof), ([], some .eof)] := by decide
+
+set_option maxRecDepth 100000 in
+/-- non-vacuity, on the case the boundary is about: GCM placeholder protection, the peer's
+ChangeCipherSpec + Finished + two application records + close-notify; the first transport
+read carries the whole last flight and the first 7 bytes of the first application record
+(header and two bytes of the body), and 3 bytes were already buffered.  The handshake
+completes and the reads return exactly what was written, then end-of-stream. -/
+example :
+    let verify : Bytes := List.replicate 12 0xab
+    let recs : List Bytes := [[1, 2, 3], [4, 5]]
+    let w := flightBytes codecAead (finishedMsg verify) recs true
+    let io : Raw := ⟨w.take 3, [(w.drop 3).take (6 + 45 + 7 - 3), (w.drop (6 + 45 + 7)).take 30, w.drop (6 + 45 + 7 + 30)]⟩
+    io.all = w ∧
+    lastFlightThenReads factsRx factsHs codecAead.dec (fun _ => true) { io := io } [2, 1, 5, 5]
+      = (none, [([1, 2], none), ([3], none), ([4, 5], some .eof), ([], some .eof)]) := by decide
+
+set_option maxRecDepth 100000 in
+/-- and what the theorem excludes: a hand-over that empties `rawInput` (here: the same run, but
+`Conn.Read` starts from the transport alone) loses the buffered bytes — the first `Read`
+fails on what is left of the first application record. -/
+example :
+    let verify : Bytes := List.replicate 12 0xab
+    let w := flightBytes codecAead (finishedMsg verify) [[1, 2, 3], [4, 5]] true
+    let io : Raw := ⟨[], [w.take (6 + 45 + 7), w.drop (6 + 45 + 7)]⟩
+    let s1 := (readLastFlight factsRx factsHs codecAead.dec (fun _ => true) { io := io }).2
+    s1.io.raw.length = 7 ∧
+    ((reads factsRx codecAead.dec { finishHandshake s1 with io := ⟨[], s1.io.chunks⟩ } [5]).1.map (·.2))
+      = [some .badVersion] := by decide
 
 end Gotlcp.Props.C06
